@@ -304,4 +304,20 @@ theorem runSerial_append (a b : List Update) (m : PortMapping) :
 theorem revoked_unusable {now : Nat} {m : PortMapping} (h : m.IsRevoked = true) : mappingUsable now m = false := by
   simp [mappingUsable, h]
 
+theorem decodeTargetReady_noBar (n : List Char) (h : ∀ c ∈ n, c ≠ '|') : decodeTargetReady n = none := by
+  induction n with
+  | nil => rfl
+  | cons c cs ih =>
+    have hc : c ≠ '|' := h c (by simp)
+    have := ih (fun x hx => h x (by simp [hx]))
+    simp [decodeTargetReady, this, hc]
+
+/-- The wire carries the tunnel id verbatim: whatever characters it is made of (blanks, line breaks, `|`). -/
+theorem decode_encode_targetReady (t n : List Char) (h : ∀ c ∈ n, c ≠ '|') :
+    decodeTargetReady (encodeTargetReady t n) = some (t, n) := by
+  unfold encodeTargetReady
+  induction t with
+  | nil => simp [decodeTargetReady, decodeTargetReady_noBar n h]
+  | cons c cs ih => simp [decodeTargetReady, ih]
+
 end Tunnox.C04
